@@ -147,6 +147,9 @@ type C12Case struct {
 	Hist []C12Step `json:"hist,omitempty"`
 	// Order in which the oracle uses the codecs on the object: "" / "proto-first" or "vt-first".
 	Order string `json:"order,omitempty"`
+	// Corrupt: failing-decode steps executed (after the history, right before the oracle) on
+	// corrupted encodings of the value under test; see C12Corrupt.
+	Corrupt []C12Corrupt `json:"corrupt,omitempty"`
 }
 
 // ---- descriptor access ----------------------------------------------------------------
@@ -765,7 +768,7 @@ func c12Hex(b []byte) string {
 // c12Judge runs the oracle on m (a message of type ty); want is a separate, freshly built
 // message object of the value m must have (never m itself: the oracle may encode want).
 // vtFirst selects which codec touches m first. It returns "" or the verdict.
-func c12Judge(m, want proto.Message, ty c12Type, vtFirst bool) (verdict string, hist map[string]any, hasVT bool) {
+func c12Judge(m, want proto.Message, ty c12Type, vtFirst, noMemo bool) (verdict string, hist map[string]any, hasVT bool) {
 	hist = map[string]any{"type": string(ty.md.FullName())}
 	step := "start"
 	name := ty.md.Name()
@@ -831,7 +834,7 @@ func c12Judge(m, want proto.Message, ty c12Type, vtFirst bool) (verdict string, 
 				return v
 			}
 			hist["decoded_after_overwrite"] = c12Text(got)
-			return fmt.Sprintf("%s: %s changed when the input buffer was overwritten after decoding (the decoded message aliases the buffer): now {%s} want {%s}", name, what, c12Text(got), c12Text(want))
+			return fmt.Sprintf("%s: %s differs from the original after the input buffer was overwritten, while a second decode of the same bytes gives the original (the decoded message aliases the buffer, or the decoder does not return the same message for the same bytes every time): now {%s} want {%s}", name, what, c12Text(got), c12Text(want))
 		}
 		clear(in)
 		last[useVT] = got
@@ -955,7 +958,8 @@ func c12Judge(m, want proto.Message, ty c12Type, vtFirst bool) (verdict string, 
 		if earlier := last[useVT]; earlier != nil {
 			// the step is a function of (type, bytes, decoder) only, not of the history that led
 			// to the value: once per process for identical encodings (a replay starts fresh)
-			if c12IndepSeen(ty, b1, useVT, false) {
+			// (not after a failing decode in this case: process-global decoder state may differ)
+			if !noMemo && c12IndepSeen(ty, b1, useVT, false) {
 				continue
 			}
 			step = fmt.Sprintf("independence of decoded messages (vt=%v)", useVT)
@@ -1041,8 +1045,24 @@ func runC12(c C12Case) ev.Outcome {
 	} else {
 		classes = append(classes, "order:proto-first")
 	}
-	verdict, hist, hasVT := c12Judge(m, want, ty, vtFirst)
+	cclasses, cverdict, chist := c12RunCorrupt(c, ty, want)
+	classes = append(classes, cclasses...)
+	if cverdict != "" {
+		o := ev.Failf("%s", cverdict)
+		o.History = chist
+		o.Classes = classes
+		return o
+	}
+	verdict, hist, hasVT := c12Judge(m, want, ty, vtFirst, len(c.Corrupt) > 0)
 	if verdict != "" {
+		if len(c.Corrupt) > 0 {
+			verdict = "after a failing decode of a corrupted encoding in the same process: " + verdict
+			for k, v := range chist {
+				if _, dup := hist[k]; !dup {
+					hist[k] = v
+				}
+			}
+		}
 		if len(c.Hist) > 0 {
 			verdict = "after the history (encode/decode calls and in-place modification of one message object): " + verdict
 		}
